@@ -74,7 +74,7 @@ def batch(ids):
     "for every delivered patch of the given property ids: verify it, then run the property's own check against it"
     outp = Path("/tmp/seed_results.jsonl")
     for pid in ids:
-        d = Path("/tmp/seed_out") / pid
+        d = Path(os.environ.get("SEED_OUT", "/tmp/seed_out")) / pid
         for k in ("1", "2"):
             if not (d / f"patch{k}.diff").exists() or not (d / f"demo{k}.py").exists():
                 continue
